@@ -145,6 +145,9 @@ def checkHrpdac (strsHex queriesHex hs ts occ t rules seqs loc abs : String) : S
   let g : RePair.Grammar := { terminals := terminals, rules := rl }
   let d := Hash.build (hs.toNat?.getD 0) S
   if d.tsize != ts.toNat?.getD 0 then s!"V table-size model={d.tsize} code={ts}" else
+  -- the hypothesis `accepted` of the hash theorems (the size passed nearest_prime's own trial division)
+  if !(d.tsize % 2 != 0 && Hash.oddTrial d.tsize (Nat.sqrt d.tsize + 2) 3) then "V table-size-not-accepted-by-nearest_prime" else
+  if !(S.length ≤ hs.toNat?.getD 0) then "V requested-size-below-the-number-of-strings" else
   let modOcc := String.ofList (d.table.map fun c => if c.isSome then '1' else '0')
   if modOcc != occ then "V occupancy-bitmap-differs" else
   if !g.wf then "V rule-refers-forward" else
